@@ -120,4 +120,73 @@ MUTANTS = [
     dict(id="c20-benign-new-struct", props=["C20", "C01"], benign=True,
          edits=[(STRUCT, "@tpm_dataclass\nclass TPMS_EMPTY:\n    pass\n", "@tpm_dataclass\nclass TPMS_EMPTY:\n    pass\n\n\n@tpm_dataclass\nclass TPMS_UNREFERENCED_EXTRA:\n    a: UINT16\n    b: UINT32\n")]),
 ]
+
+PUMP_MUTANTS = [
+    # ------------------------------------------------------------------ C13
+    dict(id="c13-stale-regress", props=["C13"], rule="A1", names="stale",
+         edits=[(MARSHAL, """                if buffer_depleted:
+                    # the look-ahead byte was already consumed by the processor
+                    bytes_remaining = b""
+                else:
+                    bytes_remaining = bytes(itertools.chain((byte,), buffer_iter))
+""", """                bytes_remaining = bytes(itertools.chain((byte,), buffer_iter))
+""")]),
+    dict(id="c13-prepend-on-send", props=["C13"], rule="A1", names="stale",
+         edits=[(MARSHAL, "            error.set_bytes_remaining(buffer_iter)\n", "            error.set_bytes_remaining(itertools.chain((byte,), buffer_iter))\n")]),
+    dict(id="c13-drop-fresh", props=["C13"], rule="A1", names="dropped",
+         edits=[(MARSHAL, "                    bytes_remaining = bytes(itertools.chain((byte,), buffer_iter))\n                error.set_bytes_remaining",
+                 "                    bytes_remaining = bytes(buffer_iter)\n                error.set_bytes_remaining")]),
+    dict(id="c13-no-attach", props=["C13"], rule="A2",
+         edits=[(MARSHAL, "            error.set_bytes_remaining(buffer_iter)\n            raise error", "            raise error")]),
+    dict(id="c13-raise-before-skip", props=["C13"], rule="A3",
+         edits=[(CONSTR, "                yield from consume_bytes(self.size_max - self.size_already)\n                raise SizeConstraintExceededError(", "                raise SizeConstraintExceededError(")]),
+    dict(id="c13-benign-ifexp", props=["C13", "C05", "C10"], benign=True,
+         edits=[(MARSHAL, """                if buffer_depleted:
+                    # the look-ahead byte was already consumed by the processor
+                    bytes_remaining = b""
+                else:
+                    bytes_remaining = bytes(itertools.chain((byte,), buffer_iter))
+""", """                bytes_remaining = b"" if buffer_depleted else bytes(itertools.chain((byte,), buffer_iter))
+""")]),
+    dict(id="c13-benign-rename", props=["C13", "C05", "C10"], benign=True,
+         edits=[(MARSHAL, "buffer_iter", "src_it", 0), (MARSHAL, "buffer_depleted", "exhausted", 0)]),
+    # ------------------------------------------------------------------ C05
+    dict(id="c05-absorb-surplus", props=["C05"], rule="E1", names="return obj",
+         edits=[(MARSHAL, """                    if abort_on_error:
+                        raise error
+                    else:
+                        yield WarningEvent(error=error)
+                        return obj
+""", """                    return obj
+""")]),
+    dict(id="c05-drop-cc", props=["C05"], rule="E2", names="InputStreamBytesDepletedError",
+         edits=[(MARSHAL, "    error = InputStreamBytesDepletedError(command_code=command_code)", "    error = InputStreamBytesDepletedError()")]),
+    dict(id="c05-silent-regress", props=["C05"], rule="E3", names="stream-type",
+         edits=[(MARSHAL, "                    tpm_type is CommandResponseStream\n                    and buffer_depleted", "                    buffer_depleted")]),
+    dict(id="c05-absorb-depleted", props=["C05"], rule="E1", names="warning",
+         edits=[(MARSHAL, "    error = InputStreamBytesDepletedError(command_code=command_code)\n    if abort_on_error:\n        raise error",
+                 "    error = InputStreamBytesDepletedError(command_code=command_code)\n    if abort_on_error and command_code is not None:\n        raise error")]),
+    dict(id="c05-surplus-without-lookahead", props=["C05"], rule="E1", names="bytes_remaining",
+         edits=[(MARSHAL, "                    bytes_remaining = bytes(itertools.chain((byte,), buffer_iter))\n                    error = InputStreamSuperfluousBytesError(",
+                 "                    bytes_remaining = bytes(buffer_iter)\n                    error = InputStreamSuperfluousBytesError(")]),
+    dict(id="c05-cc-from-any-event", props=["C05"], rule="E2",
+         edits=[(MARSHAL, "                if event.path == command_code_path:\n                    command_code = event.value", "                if event.path[-1].name.endswith(\"Code\"):\n                    command_code = event.value")]),
+    # ------------------------------------------------------------------ C10
+    dict(id="c10-double-pull", props=["C10"], rule="T1",
+         edits=[(MARSHAL, "            byte = next(buffer_iter)\n", "            byte = next(buffer_iter)\n            byte = next(buffer_iter)\n")]),
+    dict(id="c10-discard-pull", props=["C10"], rule="T1",
+         edits=[(MARSHAL, "            byte = next(buffer_iter)\n", "            byte = next(buffer_iter)\n            next(buffer_iter, None)\n")]),
+    dict(id="c10-materialise", props=["C10"], rule="T2", names="bytes(buffer)",
+         edits=[(MARSHAL, "    buffer_iter = iter(buffer)\n", "    buffer = bytes(buffer)\n    buffer_iter = iter(buffer)\n")]),
+    dict(id="c10-len", props=["C10"], rule="T2",
+         edits=[(HEX, "    buffer = iter(buffer)\n", "    if len(buffer) % 2:\n        pass\n    buffer = iter(buffer)\n")]),
+    dict(id="c10-hand-iterator", props=["C10"], rule="T3",
+         edits=[(MARSHAL, "            event = processor.send(byte)\n", "            event = processor.send((byte, buffer_iter)[0])\n")]),
+    dict(id="c10-late-event", props=["C10"], rule="T1", names="byte request after event",
+         edits=[(MARSHAL, "    none = yield event\n    assert none is None\n\n    if error:", "    none = yield event\n    assert none is None\n    _peek = yield None\n\n    if error:")]),
+    dict(id="c10-prefetch-list", props=["C10"], rule="T1",
+         edits=[(MARSHAL, "    command_code = None\n    byte = None\n", "    command_code = None\n    prefetched = list(buffer_iter)\n    buffer_iter = iter(prefetched)\n    byte = None\n")]),
+]
+MUTANTS += PUMP_MUTANTS
+
 MUTANTS = [m for m in MUTANTS if not m.get("skip_if_missing")]
